@@ -106,8 +106,10 @@ func touch(u *Url) {
 
 // setter start URLs (DESIGN.md Appendix C).
 var startURLs = []string{
-	"http://h/p?q#f", "http://u:p@h:8/p", "https://h:80/", "ws://h", "http://1.2.3.4/", "http://[::1]:8/",
-	"file:///C:/d", "file://h/d", "a://h/p", "a://u@h:8/p?q#f", "a://", "a:/p", "a:/.//p", "a:b", "a:b ?q#f", "a:b  #f",
+	// the first six are the diverse subset used where a quick tier cannot afford all sixteen
+	"http://u:p@h:8/p?q#f", "file:///C:/d", "a://u@h:8/p?q#f", "a:b ?q#f", "a:/.//p", "file://h/d",
+	"http://h/p?q#f", "https://h:80/", "ws://h", "http://1.2.3.4/", "http://[::1]:8/",
+	"a://h/p", "a://", "a:/p", "a:b", "a:b  #f",
 }
 
 // Concrete value lists for the non-final calls of a history (DESIGN.md Appendix C):
